@@ -33,13 +33,32 @@ Definition prop_ok_b (e : env) (p : property) : bool :=
   | _ => true
   end.
 
+(* two members of one proto oneof (same holder, the first among the second's siblings, explicit presence,
+   not repeated): they never both succeed, whatever the order *)
+Definition is_list_ty (t : field_ty) : bool := match t with FArray _ | FMap _ => true | _ => false end.
+
+Fixpoint list_N_eqb (a b : list N) : bool :=
+  match a, b with
+  | [], [] => true
+  | x :: a', y :: b' => (x =? y) && list_N_eqb a' b'
+  | _, _ => false
+  end.
+
+Definition oneof_after_b (p q : property) : bool :=
+  match rev (p_path p), rev (p_path q) with
+  | na :: rp, nb :: rq =>
+      list_N_eqb rp rq && existsb (N.eqb na) (p_siblings q) && p_explicit p && negb (is_list_ty (p_ty p))
+  | _, _ => false
+  end.
+
 Definition props_commute2_b (e : env) (props : list property) : bool :=
   forallb (prop_ok_b e) props &&
   forallb (fun p =>
     forallb (fun q =>
       bytes_eqb (p_json p) (p_json q)
       || compat_b (p_path p) (p_siblings p) (p_path q) (p_siblings q)
-      || disjoint_b (prop_support_b e p) (prop_support_b e q)) props) props.
+      || disjoint_b (prop_support_b e p) (prop_support_b e q)
+      || oneof_after_b p q) props) props.
 
 Definition env_commute (e : env) : bool :=
   forallb (fun ns => match snd ns with
